@@ -409,6 +409,26 @@ def pool_wrappers_part(run, pid, methods=None):
                     sc["steps"].append({"op": "wait", "id": rid})
             scs.append(sc)
             sid += 1
+    # ... and OVERLAPPING calls on a (1,3) pool (one initial instance, two additional ones): three requests held inside their first
+    # rule at once, released in reverse order — each map must be the caller's own (every value carries the request's id)
+    for order in orders[:4]:
+        for meth in [m for m in ("Execute", "ExecuteConcurrent", "ExecuteNSortMConcurrent", "ExecuteSelectedRules", "ExecuteDAGModel", "ExecuteMixModel") if m in methods][:3]:
+            rules = poolfam.rules_v(1, names=order, kinds={"pd": "fail", "ps": "stop"})
+            sc = {"id": sid, "min": 1, "max": 3, "model": 1, "rules": rules, "steps": []}
+            rid = sid * 1000
+            held = []
+            for _ in range(3):
+                rid += 1
+                held.append(rid)
+                st = poolfam.req_step(rid, meth, list(order), hold_at="*", flag=True, b=True, n=1, m=len(order) - 1)
+                st["layers"] = [list(order[:1]), list(order[1:])]
+                sc["steps"].append(st)
+            for q in reversed(held):
+                sc["steps"].append({"op": "release", "id": q})
+            for q in held:
+                sc["steps"].append({"op": "wait", "id": q})
+            scs.append(sc)
+            sid += 1
     obs = poolfam.run_pool([poolfam.strip(s) for s in scs])
     ob = {o["id"]: o for o in obs}
     items, n_calls, n_err = [], 0, 0
@@ -426,6 +446,8 @@ def pool_wrappers_part(run, pid, methods=None):
             n_calls += 1
             n_err += 1 if r["err"] else 0
             st = steps[r["id"]]
+            if any(v >= 0 and v % 1000000 != r["id"] for v in r["result"].values()) or r.get("result_reread", r["result"]) != r["result"]:
+                extra.append((sc["id"], r["id"] % 1000))          # an entry computed for ANOTHER request, or a map that changed after it was handed back
             got = poolfam.coq_list(["(%s, %s)" % (poolfam.coq_str(n), poolfam.coq_z(v // 1000000)) for n, v in sorted(r["result"].items()) if v >= 0])
             items.append("(%s, %s, (%s, %s, %s), %s, %s, (%s, %s))" % (poolfam.coq_nat(sc["id"]), poolfam.coq_nat(r["id"] % 1000), poolfam.coq_nat(sc["max"]), poolfam.coq_nat(sc["model"]), poolfam.coq_bool(st["b"] if st["method"] in HAS_B else True),
                                                                  poolfam.coq_prules(sc["rules"]), c07.coq_shape(st, sc["model"]), got, poolfam.coq_bool(r["err"])))
